@@ -152,19 +152,128 @@ func genAct(r *rand.Rand, depth int, tags map[string]bool) hx.T {
 	}
 }
 
+// ---- kinds of responses (Model.v: kind / pmsg / wire)
+
+const (
+	maxI32 = int64(2147483647)
+	minI32 = int64(-2147483648)
+)
+
+func ans(code, info int64, m any) hx.T { return hx.C("KAns", code, info, m) }
+func hello(i, s int64) hx.T            { return hx.C("MHello", i, s) }
+func okHello(i, s int64) hx.T          { return ans(0, 0, hello(i, s)) }
+func remoteErr(e int64) hx.T           { return ans(999, e, "MNil") }
+func raw(code, info int64, t string, b any) hx.T {
+	return hx.C("KRaw", hx.C("Wire", code, info, t, b))
+}
+func fields(i, s int64) hx.T { return hx.C("BFields", i, s) }
+
+var (
+	noMethod    = ans(999, -1, "MNil") // a held request to a missing method: the dispatcher answers itself
+	unknownType = raw(0, 0, "TyUnknown", fields(8, 0))
+	corruptBody = raw(0, 0, "TyHello", "BJunk")
+	errCodes    = []int64{999, 1, -1, 1000, maxI32, minI32}
+	tyNames     = []string{"TyNone", "TyHello", "TyEmpty", "TyUnknown"}
+)
+
+// field values: the proto3 default (which is not encoded at all) a third of the time
+func genI(r *rand.Rand) int64 {
+	switch p := r.Intn(100); {
+	case p < 34:
+		return 0
+	case p < 60:
+		return hx.Pick(r, []int64{1, -1, 127, 128, maxI32, minI32})
+	}
+	return int64(r.Intn(1000)) + 2
+}
+
+func genS(r *rand.Rand) int64 {
+	if r.Intn(100) < 60 {
+		return 0
+	}
+	return 1 + int64(r.Intn(7))
+}
+
+func genMsg(r *rand.Rand, tags map[string]bool) any {
+	switch p := r.Intn(100); {
+	case p < 12:
+		tags["reply-nil"] = true
+		return "MNil"
+	case p < 20:
+		tags["reply-typed-nil"] = true
+		return "MTypedNil"
+	case p < 28:
+		tags["reply-empty-message-type"] = true
+		return "MEmpty"
+	}
+	i, s := genI(r), genS(r)
+	if i == 0 && s == 0 {
+		tags["reply-all-default"] = true
+	}
+	if s != 0 {
+		tags["reply-string"] = true
+	}
+	return hello(i, s)
+}
+
+func genBody(r *rand.Rand) any {
+	switch p := r.Intn(100); {
+	case p < 40:
+		return fields(0, 0)
+	case p < 75:
+		return fields(genI(r), genS(r))
+	}
+	return "BJunk"
+}
+
 func genKind(r *rand.Rand, tags map[string]bool) any {
 	switch p := r.Intn(100); {
-	case p < 55:
-		return hx.C("KOk", int64(r.Intn(1000)))
-	case p < 65:
-		return "KNil"
-	case p < 85:
+	case p < 58: // Response(req, CodeSucc, <ignored text>, msg)
+		info := int64(0)
+		if r.Intn(8) == 0 {
+			tags["ok-with-errinfo"] = true
+			info = 1 + int64(r.Intn(49))
+		}
+		return ans(0, info, genMsg(r, tags))
+	case p < 78: // Response(req, code, text, <ignored msg>)
 		tags["remote-err"] = true
-		return hx.C("KErr", int64(r.Intn(50)))
-	default:
-		tags["undecodable"] = true
-		return hx.C("KBad", int64(r.Intn(2)))
+		info := 1 + int64(r.Intn(49))
+		if r.Intn(5) == 0 {
+			tags["err-empty-text"] = true
+			info = 0
+		}
+		var m any = "MNil"
+		if r.Intn(10) < 3 {
+			tags["err-with-msg"] = true
+			m = genMsg(r, map[string]bool{})
+		}
+		return ans(hx.Pick(r, errCodes), info, m)
 	}
+	// a hand-made ServiceResponse: every combination of fields
+	tags["raw"] = true
+	code := int64(0)
+	if r.Intn(10) < 3 {
+		code = hx.Pick(r, errCodes)
+	}
+	info := int64(0)
+	if r.Intn(3) == 0 {
+		info = 1 + int64(r.Intn(49))
+	}
+	t, b := hx.Pick(r, tyNames), genBody(r)
+	f, isFields := b.(hx.T)
+	empty := isFields && f.Int(0) == 0 && f.Int(1) == 0
+	switch {
+	case code != 0 && (t != "TyNone" || !empty):
+		tags["err-with-body"] = true
+	case code != 0:
+	case t == "TyUnknown" || (t != "TyNone" && !isFields):
+		tags["undecodable"] = true
+	case t == "TyNone" && !empty:
+		tags["body-without-type"] = true
+	case t != "TyNone" && empty:
+		tags["typed-empty-body"] = true
+	}
+	return raw(code, info, t, b)
 }
 
 func tagList(tags map[string]bool) []string {
@@ -214,7 +323,7 @@ func gen(r *rand.Rand, maxLen int) ([]hx.T, []string) {
 			if sh.pend[id].via == 2 && r.Intn(3) > 0 {
 				// let the peer's dispatcher answer "no method" itself
 				tags["dispatch-no-method"] = true
-				push(hx.C("Resp", id, hx.C("KErr", int64(-1))))
+				push(hx.C("Resp", id, noMethod))
 			} else {
 				push(hx.C("Resp", id, genKind(r, tags)))
 			}
@@ -301,7 +410,7 @@ func boundaryCases() [][]hx.T {
 	reqRe := hx.C("Do", hx.C("AReq", list(hx.C("AReq", []any{}), hx.T{Name: "ANotify"})))
 	unser := hx.C("Do", hx.C("AUnser", []any{}))
 	adv := func(d int64) hx.T { return hx.C("Advance", d) }
-	ok := func(id int64) hx.T { return hx.C("Resp", id, hx.C("KOk", id%1000+1)) }
+	ok := func(id int64) hx.T { return hx.C("Resp", id, okHello(id%1000+1, 0)) }
 	return [][]hx.T{
 		{req, adv(timeout), tick(), adv(1), tick(), tick()},
 		{req, adv(timeout - 1), tick(), adv(1), tick(), adv(1), tick(), tick()},
@@ -315,10 +424,60 @@ func boundaryCases() [][]hx.T {
 		{hx.C("SetNext", maxReqID), req, hx.C("SetNext", 7), ok(1), hx.C("SetNext", maxReqID-1), req, req},
 		{hx.C("Do", hx.T{Name: "ANotify"}), hx.T{Name: "RespNotify"}, hx.C("RespNoSender", 1), req, hx.C("RespNoSender", 1), tick()},
 		{hx.C("Do", hx.C("ANoRoute", list(hx.C("AReq", []any{}), hx.C("ANoRoute", list(hx.C("AUnser", []any{})))))),
-			ok(1), hx.C("Resp", 2, hx.C("KBad", 0)), adv(timeout + 1), tick(), tick()},
-		{req, req, req, hx.C("Resp", 2, hx.C("KBad", 0)), hx.C("Resp", 1, hx.C("KBad", 1)), hx.C("Resp", 3, hx.C("KErr", 4)),
-			hx.C("Resp", 3, "KNil"), tick()},
+			ok(1), hx.C("Resp", 2, unknownType), adv(timeout + 1), tick(), tick()},
+		{req, req, req, hx.C("Resp", 2, unknownType), hx.C("Resp", 1, corruptBody), hx.C("Resp", 3, remoteErr(4)),
+			hx.C("Resp", 3, ans(0, 0, "MNil")), tick()},
 	}
+}
+
+// the value delivered to the callback, exhaustively over the field boundaries: every answer
+// (code 0 / CodeErrString / negative) x (empty / non-empty error text) x (nil, typed nil,
+// all-default, only-string, only-int, both, empty message type) through each way of producing
+// it (Service.Response of a received request; the API completion closure; QuerySession), and
+// every hand-made response (code) x (text) x (type) x (empty / string-only / int-only / both /
+// junk body).  Each history: one request per kind, the answers in order, then a duplicate of the
+// first answer with ANOTHER kind (discarded), then the completing suffix.
+func valueKinds() (answers, raws []hx.T) {
+	msgs := []any{"MNil", "MTypedNil", hello(0, 0), hello(0, 1), hello(5, 0), hello(-1, 2), hello(minI32, 3), "MEmpty"}
+	for _, code := range []int64{0, 999, -1} {
+		for _, info := range []int64{0, 3} {
+			for _, m := range msgs {
+				answers = append(answers, ans(code, info, m))
+			}
+			for _, t := range tyNames {
+				for _, b := range []any{fields(0, 0), fields(0, 1), fields(5, 0), fields(-1, 2), "BJunk"} {
+					raws = append(raws, raw(code, info, t, b))
+				}
+			}
+		}
+	}
+	return
+}
+
+func valueCases() [][]hx.T {
+	req := hx.C("Do", hx.C("AReq", []any{}))
+	answers, raws := valueKinds()
+	var out [][]hx.T
+	pack := func(via int64, ks []hx.T, other hx.T) {
+		const per = 6
+		for i := 0; i < len(ks); i += per {
+			chunk := ks[i:min(i+per, len(ks))]
+			ops := []hx.T{hx.C("Via", via)}
+			for range chunk {
+				ops = append(ops, req)
+			}
+			for j, k := range chunk {
+				ops = append(ops, hx.C("Resp", int64(j+1), k))
+			}
+			ops = append(ops, hx.C("Resp", 1, other), hx.C("Advance", timeout+1), tick(), tick())
+			out = append(out, ops)
+		}
+	}
+	for _, via := range []int64{0, 1, 4} {
+		pack(via, answers, raws[len(out)%len(raws)])
+	}
+	pack(0, raws, okHello(9, 0))
+	return out
 }
 
 // the routed branch of app.Request / app.Notify and the peer's API dispatcher
@@ -334,12 +493,12 @@ func routedCases() [][]hx.T {
 	for v := int64(0); v <= 5; v++ {
 		out = append(out,
 			[]hx.T{hx.C("Via", v), req, reqRe, note, noteNR, nr, unser,
-				resp(1, hx.C("KOk", 11)), resp(1, hx.C("KOk", 11)), resp(2, hx.C("KErr", int64(-1))), resp(3, "KNil"),
-				resp(4, hx.C("KErr", 7)), hx.C("DirectNotify", 0), hx.T{Name: "RespNotify"}, hx.C("DirectNotify", 1),
+				resp(1, okHello(11, 0)), resp(1, okHello(11, 0)), resp(2, noMethod), resp(3, ans(0, 0, "MNil")),
+				resp(4, remoteErr(7)), hx.C("DirectNotify", 0), hx.T{Name: "RespNotify"}, hx.C("DirectNotify", 1),
 				hx.C("RespNoSender", 3), hx.C("Advance", timeout+1), tick(), tick()},
 			[]hx.T{hx.C("Via", v), req, hx.C("Via", (v+1)%6), req, hx.C("Via", (v+3)%6), req, note,
-				resp(3, hx.C("KErr", int64(-1))), resp(2, hx.C("KErr", int64(-1))), resp(1, hx.C("KErr", int64(-1))),
-				resp(2, hx.C("KBad", 1)), hx.C("Advance", timeout+1), tick(), tick()},
+				resp(3, noMethod), resp(2, noMethod), resp(1, noMethod),
+				resp(2, corruptBody), hx.C("Advance", timeout+1), tick(), tick()},
 		)
 	}
 	return out
@@ -355,7 +514,7 @@ func realTimerCases(tier string) [][]hx.T {
 		cs = append(cs,
 			[]hx.T{req, reqRe, hx.C("Advance", timeout+1), real, tick()},
 			[]hx.T{hx.C("Do", hx.C("AUnser", []any{})), hx.C("Advance", timeout+1), real},
-			[]hx.T{real, req, hx.C("Resp", 1, "KNil"), real, real},
+			[]hx.T{real, req, hx.C("Resp", 1, ans(0, 0, "MNil")), real, real},
 		)
 	}
 	return cs
@@ -368,8 +527,8 @@ func enumerate(L int, emit func([]hx.T)) {
 		hx.C("Do", hx.C("AReq", []any{})),
 		hx.C("Do", hx.C("AReq", list(hx.C("AReq", []any{})))),
 		hx.C("Do", hx.T{Name: "ANotify"}),
-		hx.C("Resp", 1, hx.C("KOk", 5)),
-		hx.C("Resp", 2, hx.C("KErr", 3)),
+		hx.C("Resp", 1, okHello(0, 0)), // the all-default reply: zero bytes on the wire
+		hx.C("Resp", 2, remoteErr(3)),
 		hx.C("Advance", timeout),
 		hx.C("Advance", 1),
 		tick(),
